@@ -85,6 +85,10 @@ SameLeft(k, d) == (d * (k - 1)) \div 2
 TermsEqualSameObs(K, d0, taps, k, d) ==
     /\ Len(taps) = k
     /\ \A i \in 1..k : (i - 1) * d - SameLeft(k, d) = taps[i] * d0 - SameLeft(K, d0)
+\* explicit padding in front of an un-padded layer, L0 / L1 samples on the left before / after export
+TermsEqualPadObs(K, d0, L0, taps, k, d, L1) ==
+    /\ Len(taps) = k
+    /\ \A i \in 1..k : (i - 1) * d - L1 = taps[i] * d0 - L0
 TermsEqualSame(anchor, K, b, g, d0) ==
     LET T == Kept(anchor, K, b, g)
         k == Cardinality(T)
